@@ -519,7 +519,7 @@ func TestVerifC04Service(t *testing.T) {
 func TestVerifC04CloseRace(t *testing.T) {
 	r := verifkit.Start(t, "C04", "closerace")
 	defer r.Finish()
-	r.SetRule("Each case creates a fresh leader runtime (followers persist), lets 6 goroutines loop Install(higher authority)+2 Commits on their own channels, closes the runtime after a seeded 0.2-2.5 ms delay and, once Runtime.Close has returned nil, requires every in-flight Install/Commit to return within the grace period. Every case is non-trivial if at least one call overlapped Close; distinct by (goroutines that had a call overlapping Close, bucketed calls completed).")
+	r.SetRule("Each case creates a fresh leader runtime (followers persist), lets 6 goroutines loop Install(higher authority)+2 Commits on their own channels (calls keep being started until Close has returned), closes the runtime after a seeded 0.2-2.5 ms delay and, once Runtime.Close has returned nil, requires every in-flight Install/Commit to return within the grace period. Every case is non-trivial if at least one call overlapped Close; distinct by (goroutines that had a call overlapping Close, bucketed calls completed).")
 	r.Assume("Runtime.Close returning nil means all accepted work was joined (its doc comment); a call still blocked 45 s later (no fault injection in this unit) is stranded, not slow.")
 	faults := &c04Faults{}
 	cluster, err := c04NewCluster(faults)
@@ -532,8 +532,15 @@ func TestVerifC04CloseRace(t *testing.T) {
 	_ = cluster.nodes[c04LeaderNode].rt.Close(cctx)
 	ccancel()
 	defer cluster.closeFollowers()
-	n := r.N(600, 4000)
-	const workers = 6
+	n := r.N(200, 1200)
+	workers := 6
+	if v := os.Getenv("C04_CR_WORKERS"); v != "" {
+		fmt.Sscan(v, &workers)
+	}
+	var tNew, tClose, tWait time.Duration
+	defer func() {
+		r.Note("closerace_time_ms", map[string]int64{"new_runtime": tNew.Milliseconds(), "close": tClose.Milliseconds(), "wait": tWait.Milliseconds()})
+	}()
 	for i := 0; i < n; i++ {
 		if r.Skip(i) {
 			continue
@@ -541,7 +548,9 @@ func TestVerifC04CloseRace(t *testing.T) {
 		rng := r.Rand(0xc105e, uint64(i))
 		delay := time.Duration(200+rng.IntN(2300)) * time.Microsecond
 		r.BeginCase(i, fmt.Sprintf("close after %v", delay))
+		t0 := time.Now()
 		rt, err := cluster.c04NewLeaderRuntime()
+		tNew += time.Since(t0)
 		if err != nil {
 			r.Inconclusive(fmt.Sprintf("case %d: leader runtime construction failed: %v", i, err))
 			return
@@ -584,19 +593,23 @@ func TestVerifC04CloseRace(t *testing.T) {
 		}
 		time.Sleep(delay)
 		closing.Store(true)
+		t1 := time.Now()
 		cctx, ccancel := context.WithTimeout(context.Background(), 90*time.Second)
 		err = rt.Close(cctx)
 		ccancel()
+		tClose += time.Since(t1)
 		stop.Store(true)
 		if err != nil {
 			r.Count("close_error", 1)
 			r.Inconclusive(fmt.Sprintf("case %d: Runtime.Close failed: %v", i, err))
 			return
 		}
+		t2 := time.Now()
 		done := make(chan struct{})
 		go func() { wg.Wait(); close(done) }()
 		select {
 		case <-done:
+			tWait += time.Since(t2)
 		case <-time.After(c04Grace()):
 			buf := make([]byte, 2<<20)
 			buf = buf[:runtime.Stack(buf, true)]
